@@ -171,7 +171,9 @@ class Driver(object):
                                stderr=subprocess.PIPE, timeout=timeout)
         except subprocess.TimeoutExpired:
             raise Infra("model driver timed out")
-        lines = p.stdout.decode("utf-8").splitlines()
+        lines = p.stdout.decode("utf-8").split("\n")
+        if lines and lines[-1] == "":
+            lines.pop()
         if p.returncode != 0 or len(lines) != len(requests):
             raise Infra("model driver: rc=%s, %d answers for %d requests; stderr=%s"
                         % (p.returncode, len(lines), len(requests), p.stderr.decode("utf-8", "replace")[-500:]))
